@@ -95,6 +95,7 @@ def tasks(tier, seed):
     out = [{"fn": "ctx", "kwargs": {"draws": d}, "label": f"ctx/draws={d}"} for d in ((0, 1, 2) if tier == "quick" else (0, 1, 2, 3, 4, 5, 8))]
     for od, idr in (((0, 1), (1, 1), (1, 2)) if tier == "quick" else [(a, b) for a in (0, 1, 2, 3) for b in (0, 1, 2, 3)]):
         out.append({"fn": "ctx_nested", "kwargs": {"outer_draws": od, "inner_draws": idr}, "label": f"ctx_nested/outer={od},inner={idr}"})
+    out.append({"fn": "ctx_concurrent", "kwargs": {}, "label": "ctx_concurrent"})
     for i, m in enumerate(MODELS):
         out.append({"fn": "model", "kwargs": {"i": i}, "label": f"model/{m[0]}"})
         out.append({"fn": "model_twice", "kwargs": {"i": i}, "label": f"model_twice/{m[0]}"})
@@ -181,6 +182,130 @@ def ctx_nested(outer_draws, inner_draws):
     else:
         vx.prove(f"C04/ctx/nested/unseeded_inner_consumes_outer/{lab}", _eq(after_inner, rngmodel.RngModel.after(rngmodel.SEEDED(so.t), outer_names + [n for n, _ in inner])))
     vx.prove(f"C04/ctx/nested/nothing_depends_on_prior_state/{lab}", all(not rng.depends_on_initial_state(t) for _, t in dr))
+
+
+def _contexts_can_overlap():
+    """Real threads, real numpy: can a second thread enter a seeded context while another thread is inside one?  (False once the
+    seeded sections are made mutually exclusive, e.g. by a lock - then interleavings inside a section do not exist.)"""
+    import threading
+
+    from pyxel.util import set_random_seed
+
+    inside, release, entered = threading.Event(), threading.Event(), threading.Event()
+    saved = np.random.get_state()
+
+    def first():
+        with set_random_seed(1):
+            inside.set()
+            release.wait(5)
+
+    def second():
+        if inside.wait(5):
+            with set_random_seed(2):
+                entered.set()
+
+    ta, tb = threading.Thread(target=first, daemon=True), threading.Thread(target=second, daemon=True)
+    ta.start()
+    tb.start()
+    ok = entered.wait(1.0)
+    release.set()
+    ta.join(5)
+    tb.join(5)
+    np.random.set_state(saved)
+    return ok
+
+
+def _threads_by_schedule(schedule, seed_a, seed_b):
+    """Two real threads driven step by step (enter / draw / exit) in the order given by `schedule` (a string over a, b); returns
+    None when a step blocks (mutually exclusive sections), else ({thread: draws}, restored?)."""
+    import threading
+
+    from pyxel.util import set_random_seed
+
+    go = {c: [threading.Event() for _ in range(3)] for c in "ab"}
+    fin = {c: [threading.Event() for _ in range(3)] for c in "ab"}
+    draws = {}
+
+    def worker(name, seed):
+        go[name][0].wait(20)
+        cm = set_random_seed(seed)
+        cm.__enter__()
+        fin[name][0].set()
+        go[name][1].wait(20)
+        draws[name] = np.random.normal(size=2).tolist()
+        fin[name][1].set()
+        go[name][2].wait(20)
+        cm.__exit__(None, None, None)
+        fin[name][2].set()
+
+    np.random.seed(424242)
+    before = np.random.get_state()
+    th = [threading.Thread(target=worker, args=("a", seed_a), daemon=True), threading.Thread(target=worker, args=("b", seed_b), daemon=True)]
+    for t in th:
+        t.start()
+    cnt = {"a": 0, "b": 0}
+    blocked = False
+    for who in schedule:
+        k = cnt[who]
+        go[who][k].set()
+        if not fin[who][k].wait(3):
+            blocked = True
+            break
+        cnt[who] += 1
+    if blocked:
+        for c in "ab":
+            for e in go[c]:
+                e.set()
+    for t in th:
+        t.join(10)
+    after = np.random.get_state()
+    if blocked:
+        return None
+    restored = before[0] == after[0] and np.array_equal(before[1], after[1]) and before[2:] == after[2:]
+    return draws, restored
+
+
+def ctx_concurrent():
+    """Two runs inside seeded contexts at the same time (what the threaded dask scheduler of a parallel observation does with the
+    pipeline seed): the order of their enter / draw / exit steps is symbolic.  Each run's draws are those of its own seed, and when
+    both are finished the process-wide generator is back in its initial state."""
+    from pyxel.util import set_random_seed
+
+    sa, sb = vx.integer("seed_a"), vx.integer("seed_b")
+    vx.assume((sa >= 0) & (sa < 2**32) & (sb >= 0) & (sb < 2**32), "seeds numpy accepts")
+    if not _contexts_can_overlap():
+        vx.reach("C04/ctx/concurrent/sections_mutually_exclusive")
+        vx.prove("C04/ctx/concurrent/draws_from_own_seed/serialised", True)
+        vx.prove("C04/ctx/concurrent/state_restored/serialised", True)
+        return
+    order, steps, got = [], {"a": 0, "b": 0}, {"a": [], "b": []}
+    with Patch() as p:
+        rng = rngmodel.RngModel().install(p)
+        cms = {"a": set_random_seed(sa), "b": set_random_seed(sb)}
+        k = 0
+        while steps["a"] < 3 or steps["b"] < 3:
+            if steps["a"] < 3 and steps["b"] < 3:
+                who = "a" if bool(vx.boolean(f"next_is_a_{k}")) else "b"
+            else:
+                who = "a" if steps["a"] < 3 else "b"
+            k += 1
+            st = steps[who]
+            if st == 0:
+                cms[who].__enter__()
+            elif st == 1:
+                mark = len(rng.draws)
+                np.random.normal(size=2)
+                got[who] += rng.draws[mark:]
+            else:
+                cms[who].__exit__(None, None, None)
+            steps[who] += 1
+            order.append(who)
+        final = rng.state
+    lab = "".join(order)
+    vx.reach("C04/ctx/concurrent/explored")
+    own = [_eq(t, rngmodel.RngModel.after(rngmodel.SEEDED(seed.t), [n for n, _ in got[w][:k]])) for w, seed in (("a", sa), ("b", sb)) for k, (_, t) in enumerate(got[w])]
+    vx.prove(f"C04/ctx/concurrent/draws_from_own_seed/{lab}", vx.all_of(own))
+    vx.prove(f"C04/ctx/concurrent/state_restored/{lab}", _eq(final, rngmodel.STATE0))
 
 
 # -- H2 -----------------------------------------------------------------------------------------------
@@ -507,6 +632,21 @@ def replay(oid, kwargs, model, data):
     """Concrete confirmation on the real generator: state before / after, repeated outputs."""
     import importlib
 
+    if data["fn"] == "ctx_concurrent":
+        schedule = oid.rsplit("/", 1)[-1]
+        sa, sb = int(model.get("seed_a", 1)) % 2**32, int(model.get("seed_b", 2)) % 2**32
+        r = _threads_by_schedule(schedule, sa, sb)
+        if r is None:
+            return False, {"note": "a step blocked: the seeded sections are mutually exclusive"}
+        draws, restored = r
+        alone = {}
+        for w, sd in (("a", sa), ("b", sb)):
+            np.random.seed(sd)
+            alone[w] = np.random.normal(size=2).tolist()
+        det = {"schedule": schedule, "seeds": [sa, sb], "draws_interleaved": draws, "draws_alone": alone, "generator_restored": restored}
+        if "/state_restored/" in oid:
+            return (not restored), det
+        return draws != alone, det
     if data["fn"] == "model":
         label, modname, fname, kind, kw, seedarg = MODELS[kwargs["i"]]
         kw = _kw(kw)
